@@ -134,7 +134,7 @@ AllFaultSets == {F \in SUBSET FaultUniverse : Cardinality(F) <= MaxFaults}
 
 \* every outcome the specification admits for world W and fault set F
 Outcomes(W, F) ==
-  LET Obs(a, d) == [g \in {G} |-> [att |-> a, nd |-> d, ndAny |-> FALSE]]
+  LET Obs(a, d) == [g \in {G} |-> [att |-> a, nd |-> d, ndAny |-> FALSE, fleetLo |-> 0]]
       nds == RunOnce(W, F, Obs(<<>>, 0)).res[G].ndSet                    \* probe: which band decisions are admissible
       Atts(d) == LET sel == RunOnce(W, F, Obs(<<>>, d)).res[G].sel       \* probe: which selection problem that decision poses
                      created == CreatedOf(W.groups[G])
